@@ -85,6 +85,40 @@ impl Optimizer {
         (current, timing)
     }
 
+    /// Verification hook: run one named rewrite pass on its own.
+    #[cfg(feature = "verif-hooks")]
+    pub fn verif_pass(&self, pass: &str, ir: IRNode) -> Option<IRNode> {
+        Some(match pass {
+            "eliminate_identity_maps" => self.eliminate_identity_maps(ir),
+            "eliminate_always_true_filters" => self.eliminate_always_true_filters(ir),
+            "eliminate_always_false_filters" => self.eliminate_always_false_filters(ir),
+            "fuse_consecutive_maps" => self.fuse_consecutive_maps(ir),
+            "fuse_consecutive_filters" => self.fuse_consecutive_filters(ir),
+            "pushdown_filters" => self.pushdown_filters(ir),
+            "eliminate_empty_unions" => self.eliminate_empty_unions(ir),
+            "apply_all_rules" => self.apply_all_rules(ir),
+            "fuse_to_flatmap" => self.fuse_to_flatmap(ir),
+            "fuse_to_join_flatmap" => self.fuse_to_join_flatmap(ir),
+            _ => return None,
+        })
+    }
+
+    /// Verification hook: forwarder to the private projection remapping kernel.
+    #[cfg(feature = "verif-hooks")]
+    pub fn verif_remap_projection_for_join_flatmap(
+        projection: &[usize],
+        left_width: usize,
+        right_keys: &[usize],
+    ) -> Vec<usize> {
+        Self::remap_projection_for_join_flatmap(projection, left_width, right_keys)
+    }
+
+    /// Verification hook: forwarder to the private predicate column shifter.
+    #[cfg(feature = "verif-hooks")]
+    pub fn verif_adjust_predicate_columns(predicate: &Predicate, offset: i32) -> Predicate {
+        Self::adjust_predicate_columns(predicate, offset)
+    }
+
     /// Apply all optimization rules once
     fn apply_all_rules(&self, ir: IRNode) -> IRNode {
         // Identity elimination
